@@ -4,6 +4,7 @@
 -/
 import Nlmodel.Model.Object
 import Std.Tactic.BVDecide
+import Nlmodel.Proofs.Lemmas.Utf8All
 namespace Nl
 namespace C15
 open Obj
@@ -158,6 +159,14 @@ theorem C15_types_distinct (w1 w2 : Word) (h : tagNat w1 ≠ tagNat w2) : w1 ≠
 /-- non-vacuity: concrete values meet the hypotheses above -/
 example : InRange61 (BitVec.ofInt 64 (-1152921504606846976)) ∧ InRange61 (BitVec.ofInt 64 1152921504606846975) := by
   unfold InRange61; decide
+
+/-! ### text: the stored bytes are read back as the text that was written, and equal bytes mean equal text -/
+
+/-- any text is read back exactly: decoding the UTF-8 bytes the implementation stores gives the characters written -/
+theorem C15_text_bytes_roundtrip (cs : Text) : Utf8.decode (Utf8.encode cs) = some cs := Utf8.U7 cs
+
+/-- different texts have different bytes (so bytewise `==` never identifies two different texts), equal texts equal bytes -/
+theorem C15_text_bytes_injective (a b : Text) : Utf8.byteEq (Utf8.encode a) (Utf8.encode b) = (a == b) := Utf8.byteEq_encode a b
 
 end C15
 end Nl
